@@ -31,13 +31,20 @@ type Result struct {
 var reStrLit = regexp.MustCompile(`\(mkstr \(- (\d+)\) 0 `)
 
 // buildQuery renders the SMT-LIB script for one obligation.
+var buildMu sync.Mutex
+
 func (vc *VC) buildQuery(o *Obl) (string, error) {
+	// term construction touches shared tables (spec signatures, binder counters)
+	buildMu.Lock()
+	defer buildMu.Unlock()
 	w := vc.w
 	var asserts []*Term
 	asserts = append(asserts, vc.facts[:o.NFacts]...)
 	asserts = append(asserts, o.Extra...)
 	asserts = append(asserts, o.Guard)
-	asserts = append(asserts, Not(o.Goal))
+	var skDecls []string
+	goal := skolemize(o.Goal, &skDecls)
+	asserts = append(asserts, Not(goal))
 	decls, unfold, err := w.specDecls(vc.used.specs, vc.reveal)
 	if err != nil {
 		return "", err
@@ -50,7 +57,7 @@ func (vc *VC) buildQuery(o *Obl) (string, error) {
 			var next []*Term
 			seen := map[*Term]bool{}
 			for _, a := range frontier {
-				collectApps(a, unfold, seen, map[string]bool{}, func(app *Term) {
+				w.collectAppsDeep(a, unfold, seen, map[string]bool{}, func(app *Term) {
 					k := app.String()
 					if done[k] {
 						return
@@ -93,7 +100,7 @@ func (vc *VC) buildQuery(o *Obl) (string, error) {
 		s := t.Args[0]
 		fmt.Fprintf(&body, "(assert (= (svlen %s) %s))\n", t, StrLen(s))
 		i := "q!svi"
-		fmt.Fprintf(&body, "(assert (forall ((%s Int)) (! (=> (and (<= 0 %s) (< %s %s)) (= (svbyte %s %s) (bytes %s (+ %s %s)))) :pattern ((svbyte %s %s)))))\n",
+		fmt.Fprintf(&body, "(assert (forall ((%s Int)) (! (=> (and (<= 0 %s) (< %s %s)) (= (svbyte %s %s) (bytes %s (idx %s %s)))) :pattern ((svbyte %s %s)))))\n",
 			i, i, i, StrLen(s), t, i, StrArr(s), StrOff(s), i, t, i)
 	}
 	for _, a := range asserts {
@@ -104,6 +111,8 @@ func (vc *VC) buildQuery(o *Obl) (string, error) {
 		body.WriteString(a.String())
 		body.WriteString(")\n")
 	}
+	vc.once.Do(func() { vc.congAx = w.congAxioms(vc) }) // may declare prefEq
+	congAx := vc.congAx
 	var sb strings.Builder
 	sb.WriteString(w.prelude())
 	sb.WriteString("(declare-fun svlen (SV) Int)\n(declare-fun svbyte (SV Int) (_ BitVec 8))\n")
@@ -113,6 +122,14 @@ func (vc *VC) buildQuery(o *Obl) (string, error) {
 	}
 	for _, d := range decls {
 		sb.WriteString(d)
+		sb.WriteString("\n")
+	}
+	for _, d := range skDecls {
+		sb.WriteString(d)
+		sb.WriteString("\n")
+	}
+	for _, ax := range congAx {
+		sb.WriteString(ax)
 		sb.WriteString("\n")
 	}
 	if vc.trig["strext"] {
@@ -134,6 +151,32 @@ func (vc *VC) buildQuery(o *Obl) (string, error) {
 	return sb.String(), nil
 }
 
+var skCounter int
+
+// skolemize replaces positive universal quantifiers of a goal by fresh constants.
+func skolemize(g *Term, decls *[]string) *Term {
+	switch g.Op {
+	case "forall":
+		m := map[string]*Term{}
+		for _, v := range g.Vars {
+			skCounter++
+			n := fmt.Sprintf("sk!%d!%s", skCounter, strings.TrimPrefix(v.Name, "q!"))
+			*decls = append(*decls, fmt.Sprintf("(declare-const %s %s)", n, v.Sort))
+			m[v.Name] = Sym(n, v.Sort)
+		}
+		return skolemize(Subst(g.Args[0], m), decls)
+	case "and":
+		as := make([]*Term, len(g.Args))
+		for i, a := range g.Args {
+			as[i] = skolemize(a, decls)
+		}
+		return And(as...)
+	case "=>":
+		return Implies(g.Args[0], skolemize(g.Args[1], decls))
+	}
+	return g
+}
+
 func hasBound(t *Term) bool {
 	found := false
 	Walk(t, map[*Term]bool{}, func(x *Term) {
@@ -142,6 +185,46 @@ func hasBound(t *Term) bool {
 		}
 	})
 	return found
+}
+
+// collectAppsDeep also looks through applications of transparent (define-fun)
+// spec functions by instantiating their bodies.
+func (w *World) collectAppsDeep(t *Term, fs map[string]*specSig, seen map[*Term]bool, bound map[string]bool, f func(*Term)) {
+	expanded := map[string]bool{}
+	var visit func(t *Term)
+	visit = func(t *Term) {
+		collectApps(t, fs, seen, bound, f)
+		// transparent spec applications
+		var apps []*Term
+		Walk(t, map[*Term]bool{}, func(x *Term) {
+			if strings.HasPrefix(x.Op, "spec!") && len(x.Args) > 0 {
+				if _, isUnf := fs[x.Op]; !isUnf {
+					apps = append(apps, x)
+				}
+			}
+		})
+		for _, app := range apps {
+			if hasBound(app) {
+				continue
+			}
+			k := app.String()
+			if expanded[k] {
+				continue
+			}
+			expanded[k] = true
+			for _, sig := range w.specSigs {
+				if sig.name == app.Op && sig.body != nil && !sig.sf.Rec && !sig.sf.Opaque {
+					bs := w.specBinders(sig)
+					m := map[string]*Term{}
+					for i, b := range bs {
+						m[b.Name] = app.Args[i]
+					}
+					visit(Subst(sig.body, m))
+				}
+			}
+		}
+	}
+	visit(t)
 }
 
 // collectApps finds ground applications of the given function symbols.
@@ -280,6 +363,8 @@ func (r *Runner) Solve(vc *VC, o *Obl, idx int) *Result {
 				v = "unknown"
 			case first == "":
 				v = "unknown"
+			case strings.HasPrefix(first, "(error"):
+				v = "error"
 			default:
 				v = "error"
 			}
@@ -291,6 +376,7 @@ func (r *Runner) Solve(vc *VC, o *Obl, idx int) *Result {
 		want = "sat"
 	}
 	var agree []string
+	nerr := 0
 	pending := len(solvers)
 	for pending > 0 {
 		a := <-ch
@@ -300,6 +386,9 @@ func (r *Runner) Solve(vc *VC, o *Obl, idx int) *Result {
 			r.mu.Lock()
 			r.solverT += a.t
 			r.mu.Unlock()
+		}
+		if a.verdict == "error" {
+			nerr++
 		}
 		if a.verdict == want {
 			agree = append(agree, a.solver)
@@ -330,6 +419,8 @@ func (r *Runner) Solve(vc *VC, o *Obl, idx int) *Result {
 		if len(agree) > 0 {
 			res.Status = "discharged"
 			res.Solver = strings.Join(agree, "+")
+		} else if nerr == len(solvers) {
+			res.Status = "error"
 		} else {
 			res.Status = "undecided"
 		}
